@@ -15,6 +15,8 @@ import PynetVerif.Driver.Conform
 import PynetVerif.Driver.Path
 import PynetVerif.Driver.Qr
 import PynetVerif.Driver.Cmd
+import PynetVerif.Driver.History
+import PynetVerif.Driver.Outcome
 open PynetVerif
 
 /-- Each model contributes `String → List SExp → Option SExp` (none = not my op). -/
@@ -34,7 +36,9 @@ def handlers : List (String → List SExp → Option SExp) :=
    Driver.conformOps,
    Driver.pathOps,
    Driver.qrOps,
-   Driver.cmdOps]
+   Driver.cmdOps,
+   Driver.historyOps,
+   Driver.outcomeOps]
 
 def handle (e : SExp) : SExp :=
   match e with
